@@ -160,7 +160,7 @@ PROPS["C16"] = dict(
                "published-state functions: an invariant of the future between polls (Calling: calls == attempt+1; Sleeping: the pending sleep is exactly policy.delay_for_attempt(attempt), the stored error is the last inner "
                "error and the predicate accepted it; attempt <= max) is preserved by every poll; hence at most max_attempts+1 inner calls; success is the last inner outcome and publishes Connected; non-reconnectable errors "
                "are returned at once unchanged; giving up only beyond max_attempts with the last error; a retry only after the completed policy delay; encode/decode of the published state are inverse.",
-    level_note="Loop termination inside one poll is not proved; attempt < u32::MAX assumed (explicit assume, listed); per-task view of the published state cell; interval functions are C14; readiness of the retrying clone is a C20 known finding.",
+    level_note="Loop termination inside one poll is not proved; attempt < u32::MAX assumed (explicit assume, listed); per-task view of the published state cell; interval functions are C14; before a retry the future polls the inner service ready and a readiness error ends the request (C20).",
     technique="contract-based deductive verification (Verus): state-machine invariant on the extracted poll function",
     design_ref="§6 C16",
     assumptions=["attempt counter stays below u32::MAX", "pin projection is field access (R13)", "tokio Sleep is Ready only after its duration"],
@@ -296,17 +296,17 @@ for _p, _h in (("C02", [_EST]), ("C15", [_EST]), ("C05", _SAT)):
 PROPS["C20"] = dict(
     units=["bulkhead", "limiter", "cbcall", "retry", "timelimiter", "cache", "fallback", "reconnect", "adaptive", "coalesce", "chaos"],
     title="Layers are transparent, honour Tower readiness; listeners only observe",
-    level_text="Deductive proof (Verus), per layer, on the real call and poll_ready bodies of 12 of the 13 middleware: (a) transparency — on the non-triggering path exactly one inner call carrying the unchanged request, the "
+    level_text="Deductive proof (Verus), per layer, on the real call and poll_ready bodies of 12 of the 13 middleware (all but executor): (a) transparency — on the non-triggering path exactly one inner call carrying the unchanged request, the "
                "result is the inner outcome wrapped only in the layer's pass-through variant, poll_ready returns the inner Poll mapped by that variant; (b) readiness — the inner-service contract has the PRECONDITION 'this "
                "instance has been observed ready since its previous call' at every call site, and a clone is not ready; poll_ready's Ready(Ok) establishes it. Stacks compose because every layer's proved contract has the shape of "
                "the assumed inner contract (meta-argument).",
-    level_note="Known findings: retry attempts >= 2 and reconnect retries call an instance without fresh readiness. Excluded by name: executor (spawn on a user executor, outside the dialect), time limiter's "
-               "non-cancelling path (R15), and clause (c) listeners: neither verifier models unwinding/catch_unwind; the only machine-checked fact is R2's side condition that dropped emit statements are effect-free.",
+    level_note="No known finding left: retry, reconnect and hedge now drive the instance to readiness before every further call (fix commits ca95e39, aa8cbf2, 8971b9e; before them three call sites failed this "
+               "precondition). Excluded by name: executor (spawn on a user executor, outside the dialect) and clause (c) listeners: neither verifier models unwinding/catch_unwind; the only machine-checked fact is R2's side condition that dropped emit statements are effect-free.",
     technique="contract-based deductive verification (Verus): the Tower contract as pre/postconditions of an inner-service shim, checked at every call site of 11 extracted call bodies",
     design_ref="§6 C20",
     assumptions=["Tower contract of the inner service (assumed shim)", "a clone of a service is not ready (strict services such as Buffer)", "listeners are observers (R2)"],
     trusted=COMMON_TRUST,
-    excluded=["(c) listeners: panicking listeners / every listener receives every event (not decided)", "executor (not under contract)", "time limiter non-cancelling path", "stacks: composition is a meta-argument over the per-layer contracts"],
+    excluded=["(c) listeners: panicking listeners / every listener receives every event (not decided)", "executor (not under contract)", "stacks: composition is a meta-argument over the per-layer contracts"],
 )
 
 PROPS["C12"] = dict(
